@@ -40,7 +40,8 @@
    satisfies the premise sigs_ok of the section theorems - the signal tracker's invariant through every registration, composite
    signals included -, so that for a whole file read_signals_ops and read_signals_time_table hold with no assumption about the header.
    NOT proved: a description of the hierarchy of every declaration in terms of its type beyond these clauses; the same
-   composition for the scalar value types (read_signals_ops /
+   composition with the store theorems for the scalar value types (cycle_signals_records reads their records as single store
+   operations; read_signals_ops /
    read_signals_time_table give well-formedness and the time table for all of them), the hierarchy; those are decided by the correspondence run on signal sections and by the GHW
    file generator (MANIFEST level_note). *)
 From WV Require Import Generated.Consts Model.Base Model.Bits Model.WaveMem Model.Ghw Spec.TimeSpec Proofs.TimeTableProofs Proofs.BitsProofs Proofs.StoreProofs Proofs.RawProofs Proofs.VecProofs Proofs.VecStepProofs Proofs.GhwProofs Proofs.GhwCycleProofs Model.Leb128
@@ -196,6 +197,66 @@ Check (eq_refl : vec_value = fun t g =>
   end).
 Check cycle_vectors_example.
 
+
+(* records of every value type: scalars and enumerations are handed to the store as one symbol, integers as the 64-bit two's
+   complement of the signed LEB128 number, reals as the 8 bytes of the double; vector elements update the buffer *)
+Check cycle_signals_records :
+  forall sigs rs pos vb e rest effs fuel,
+  effs_of sigs pos rs = Some effs -> grecs_ok sigs pos rs -> consistent sigs vb -> (length rs < fuel)%nat ->
+  cycle_signals fuel sigs pos vb e (concat (map grec_bytes rs) ++ 0 :: rest)
+  = match run_effs vb e effs with
+    | Ok (vb', e') => Ok (Some (vb', e', rest))
+    | Err => Err
+    | Panic => Panic
+    end.
+Check (eq_refl : payload_eff = fun info si payload =>
+  match gs_tpe info, payload with
+  | GNine, [g] => option_map (fun v => ERaw (gs_ref info) [v] Nine) (nth_error std_logic_lut (N.to_nat g))
+  | GTwo, [g] => if 1 <? g then None else Some (ERaw (gs_ref info) [g] Two)
+  | GU8, [g] => Some (ERaw (gs_ref info) [g] Two)
+  | (GNineVec | GTwoVec), [g] =>
+      match gs_vec info, vec_value (gs_tpe info) g with
+      | Some vid, Some (value, _) => Some (EUpd vid si value)
+      | _, _ => None
+      end
+  | GLeb, _ => match sleb_read payload with
+               | Some (z, []) => Some (ERaw (gs_ref info) (be_bytes 8 (u64_of_z z)) Two)
+               | _ => None
+               end
+  | GF64, _ => if Nat.eqb (length payload) 8 then Some (EReal (gs_ref info) payload) else None
+  | _, _ => None
+  end).
+
+
+(* a whole cycle section with records of every type is the abstract run of its cycles: per cycle the time stamp, the records
+   in file order, the end of the time step, then the signed distance to the next time (negative: the last cycle) *)
+Check cycle_loop_records :
+  forall lz_compress cap sigs cs time vb e rest fuel,
+  cs <> [] -> Forall gdt_ok cs -> Forall (fun c => grecs_ok sigs 0 (gc_recs c) /\ effs_of sigs 0 (gc_recs c) <> None) cs ->
+  (forall c, In c (removelast cs) -> (0 <= gc_dt c)%Z) -> (gc_dt (last cs (mk_gcyc [] [] 0)) < 0)%Z ->
+  consistent sigs vb -> (length cs <= fuel)%nat ->
+  cycle_loop lz_compress cap fuel sigs time vb e (concat (map gcyc_bytes cs) ++ rest)
+  = match run_cycles lz_compress cap sigs time vb e cs with
+    | Ok (Some (vb', e')) => Ok (Some (vb', e', rest))
+    | Ok None => Ok None
+    | Err => Err
+    | Panic => Panic
+    end.
+Check (eq_refl : run_cycles = fix run_cycles lz_compress cap sigs time vb e cs :=
+  match cs with
+  | [] => Ok None
+  | c :: r =>
+    match effs_of sigs 0 (gc_recs c) with
+    | None => Ok None
+    | Some effs =>
+      do e1 <- time_change lz_compress cap e time;
+      do '(vb1, e2) <- run_effs vb e1 effs;
+      do '(vb3, e3) <- finish_time_step vb1 e2;
+      if (gc_dt c <? 0)%Z then Ok (Some (vb3, e3))
+      else run_cycles lz_compress cap sigs (u64_wrap (time + Z.to_N (gc_dt c))) vb3 e3 r
+    end
+  end).
+
 (* a whole cycle section: several cycles, each `records, 0, signed LEB128 distance to the next time` (negative: the last) *)
 Check cycle_loop_vectors :
   forall (parse_f64 : list byte -> option (list byte)) (lz_compress : list byte -> list byte) (cap : N)
@@ -335,6 +396,8 @@ Print Assumptions enum_lits_codes.
 Print Assumptions cycle_signals_vectors.
 Print Assumptions cycle_vectors_step.
 Print Assumptions cycle_loop_vectors.
+Print Assumptions cycle_signals_records.
+Print Assumptions cycle_loop_records.
 Print Assumptions snapshot_vectors.
 Print Assumptions ve_set_spec.
 Print Assumptions time_step_spec.
